@@ -2,6 +2,7 @@ ENTRY = {
     "C14": {
         "pkg": ".", "hdir": "dastard", "harness": DASTARD_COMMON + ["zz_verif_c14_test.go"], "test": "TestVerifC14",
         "quick": T(16, 60), "thorough": T(16, 600),
+        "env": {"GODEBUG": "asyncpreemptoff=1"},  # fewer signals: dastard's publisher drops a message when zmq_send is interrupted by one
         "rule": "one execution = one DataRecord (cross product of boundary alphabets for every field) encoded by the real messageRecords or messageSummaries "
                 "and decoded by a decoder written from doc/BINARY_FORMATS.md (2 frames, 36-byte record header / 48-byte summary header, documented offsets, "
                 "little-endian, type code 2/3, payload exactly the samples / float64 coefficients, bytes 0-1 = channel); every field must be recovered exactly "
